@@ -22,6 +22,21 @@ impl MeshEdges<'_> {
         }
         let i_bound = self.boundary_loops[0].as_slice();
 
+        // The boundary of a disk is a simple cycle. A loop which passes through a vertex more than
+        // once (for instance two fans which only touch at a vertex) does not bound a disk.
+        let distinct: HashSet<_> = i_bound.iter().collect();
+        if distinct.len() != i_bound.len() {
+            return Err("Mesh boundary loop must not pass through a vertex more than once".into());
+        }
+
+        // A disk has Euler characteristic V - E + F = 1. A single boundary loop alone does not
+        // make a disk: this also rejects a disk together with a closed component, or a surface
+        // with handles and one hole.
+        let euler = n_vert as i64 - self.edges.len() as i64 + self.faces().len() as i64;
+        if euler != 1 {
+            return Err("Mesh must have the topology of a disk".into());
+        }
+
         // Get the inner vertices
         let i_inner = inner_vertices(self, i_bound)?;
 
